@@ -149,6 +149,12 @@ def run_case(ctx, case):
         if after != before:
             ctx.violation("operand-modified", {"op": op, "when": "after-call"})
             return
+        if op["op"] == "getitem":
+            ctx.count("slice_operand_purity_comparisons")
+            mod = b.slice_operands_modified()
+            if mod:
+                ctx.violation("operand-modified", {"op": op, "when": "after-call", "which": mod})
+                return
     for c in set(corner):
         ctx.cover("corners", c)
     ctx.nontrivial(n > 0 or bool(corner))
